@@ -393,6 +393,9 @@ def main():
         print("infrastructure failure")
         return 2
 
+    if int(report.get("evaluations", 0) or 0) == 0 and not report.get("violations") and not report.get("disagreements"):
+        print("infrastructure: the check evaluated nothing (every generated case was skipped) — no verdict")
+        return 2
     known = load_known()
     known_keys = {k["key"]: k for k in known.get("known", []) if k.get("property") == prop}
     exit_code = 0
